@@ -19,6 +19,7 @@ inductive ReqState where
   | dispatch                -- KSI_ASYNC_STATE_WAITING_FOR_DISPATCH
   | waitResponse            -- KSI_ASYNC_STATE_WAITING_FOR_RESPONSE
   | error (e : Nat)
+  | received                -- KSI_ASYNC_STATE_RESPONSE_RECEIVED (set by the async layer)
   | other                   -- changed by the application layer
 deriving DecidableEq, Repr
 
@@ -190,6 +191,22 @@ def sendLoop : Nat → List SendRes → State → Nat → State × List SendRes 
         sendLoop fuel rest (s.setReq id fun q => { q with sent := q.sent + c }) id
     else (s, sends, .done)
 
+/-- "check if the request count can be restarted" -/
+def roundReset (o : Opts) (now : Nat) (s : State) : State :=
+  if now - s.roundStartAt ≥ o.roundDuration then { s with roundCount := 0, roundStartAt := now } else s
+
+/-- what happens to the head request `id` once it may be sent -/
+def sendHead (o : Opts) (now : Nat) (sends : List SendRes) (s : State) (id : Nat) (restQ : List Nat) :
+    State × List SendRes × OutRes :=
+  let r := s.getReq id
+  let (s, sends, res) := sendLoop (r.raw.length + sends.length + 1) sends s id
+  match res with
+  | .blocked => (s, sends, .blocked)
+  | .closed => (s, sends, .closed)
+  | .done =>
+    ({ s with roundCount := s.roundCount + 1, queue := restQ }.setReq id fun q =>
+      { q with raw := [], sent := 0, state := .waitResponse, sndTime := now }, sends, .done)
+
 /-- the `while (reqQueue not empty)` output loop -/
 def outputLoop (o : Opts) (now : Nat) : Nat → List SendRes → State → State × OutRes
   | 0, _, s => (s, .done)
@@ -197,7 +214,7 @@ def outputLoop (o : Opts) (now : Nat) : Nat → List SendRes → State → State
     match s.queue with
     | [] => (s, .done)
     | id :: restQ =>
-      let s := if now - s.roundStartAt ≥ o.roundDuration then { s with roundCount := 0, roundStartAt := now } else s
+      let s := roundReset o now s
       if ¬ (s.roundCount < o.maxRequests) then (s, .done)
       else
         let r := s.getReq id
@@ -206,14 +223,10 @@ def outputLoop (o : Opts) (now : Nat) : Nat → List SendRes → State → State
           outputLoop o now fuel sends
             ({ s with queue := restQ }.setReq id fun q => { q with state := .error St.NETWORK_SEND_TIMEOUT })
         else
-          let (s, sends, res) := sendLoop (r.raw.length + sends.length + 1) sends s id
-          match res with
-          | .blocked => (s, .blocked)
-          | .closed => (s, .closed)
-          | .done =>
-            let s := { s with roundCount := s.roundCount + 1, queue := restQ }.setReq id fun q =>
-              { q with raw := [], sent := 0, state := .waitResponse, sndTime := now }
-            outputLoop o now fuel sends s
+          match sendHead o now sends s id restQ with
+          | (s, _, .blocked) => (s, .blocked)
+          | (s, _, .closed) => (s, .closed)
+          | (s, sends, .done) => outputLoop o now fuel sends s
 
 /-- `dispatch(tcpCtx)`; returns the new state and the status code -/
 def dispatch (o : Opts) (e : Env) (s : State) : State × Nat :=
